@@ -256,12 +256,41 @@ func ruleImmut(w *World, r *Run, rule string, fs []fieldRef) {
 	}
 }
 
-var immutCore = []fieldRef{
-	{pWitness, "Witness", "lsp"}, {pWitness, "Witness", "Signers"}, {pWitness, "Witness", "Logs"},
-	{pSQL, "writer", "tx"}, {pSQL, "writer", "logID"}, {pSQL, "reader", "db"}, {pSQL, "reader", "logID"},
-	{pInmem, "readWriter", "read"}, {pInmem, "readWriter", "write"},
-	{pBastion, "addHandler", "w"}, {pBastion, "addHandler", "logs"}, {pBastion, "addHandler", "witVerifier"}, {pBastion, "addHandler", "limiter"},
-	{pRest, "Distributor", "baseURL"}, {pRest, "Distributor", "client"}, {pRest, "Distributor", "logs"}, {pRest, "Distributor", "witSigV"}, {pRest, "Distributor", "witness"},
+// immutable configuration/handle types: every field is written only by the function constructing the value.
+// Exceptions are listed with a reason.
+var immutTypes = [][2]string{
+	{pWitness, "Witness"}, {pSQL, "writer"}, {pSQL, "reader"}, {pSQL, "sqlLogPersistence"}, {pInmem, "readWriter"},
+	{pBastion, "addHandler"}, {pRest, "Distributor"}, {pIHTTP, "Server"}, {pConfig, "Log"},
+}
+
+var immutExceptions = map[string]string{
+	pInmem + ".readWriter.toStore": "scratch copy of the value handed to Set; never read back by another request (checked: only Set touches it)",
+}
+
+func immutCoreFields(w *World, r *Run, rule string) []fieldRef {
+	var out []fieldRef
+	for _, tn := range immutTypes {
+		o := w.lookup(tn[0], tn[1])
+		if o == nil {
+			r.Info(rule, tn[0]+"."+tn[1], "", "type no longer present (renamed?): its fields are not covered by the immutability rule")
+			continue
+		}
+		st, ok := o.Type().Underlying().(*types.Struct)
+		if !ok {
+			continue
+		}
+		for i := 0; i < st.NumFields(); i++ {
+			f := st.Field(i)
+			if _, exc := immutExceptions[tn[0]+"."+tn[1]+"."+f.Name()]; exc {
+				continue
+			}
+			out = append(out, fieldRef{tn[0], tn[1], f.Name()})
+		}
+	}
+	if len(out) < 10 {
+		r.Undecided(rule, "immutable configuration types", "", fmt.Sprintf("only %d fields found", len(out)))
+	}
+	return out
 }
 
 // ---------------------------------------------------------------- SOLE-WRITER
@@ -325,7 +354,7 @@ func ruleSoleWriter(w *World, r *Run, rule string) {
 					if mf, base := mapFieldOf(x.Map); mf != nil && mf == ckField {
 						nMap++
 						key := "in-memory checkpoints map | updated only by the compare-and-set"
-						ok := funcName(host) == fnMemExpect || baseIsLocalAlloc(base)
+						ok := w.onlyReachableFrom(fn, w.rootsOf(fnMemExpect)) || baseIsLocalAlloc(base)
 						r.Check(ok, rule, key, w.pos(x.Pos()), "the in-memory checkpoint map is written in "+short(fn.String())+", outside expectAndWrite")
 					}
 					continue
@@ -351,7 +380,7 @@ func ruleSoleWriter(w *World, r *Run, rule string) {
 						nWrite++
 					}
 					key := short(name) + " | invoked only from Update"
-					r.Check(host == updFn, rule, key, w.pos(in.Pos()), short(name)+" is invoked from "+short(fn.String())+"; only Update may open a write operation or store a checkpoint")
+					r.Check(w.onlyReachableFrom(fn, map[*ssa.Function]bool{updFn: true}), rule, key, w.pos(in.Pos()), short(name)+" is invoked from "+short(fn.String())+", which is reachable from outside Update; only Update (and helpers private to it) may open a write operation or store a checkpoint")
 				}
 				if what, ok := implNames[name]; ok && pkgPathOf(fn) != pkgPathOf(w.fn(name)) {
 					r.Fail(rule, short(name)+" | not called directly from outside its package", w.pos(in.Pos()), "storage implementation method "+what+" is called directly from "+short(fn.String()))
@@ -380,10 +409,10 @@ func ruleSoleWriter(w *World, r *Run, rule string) {
 					case st.err != "":
 						r.Undecided(rule, key, w.pos(in.Pos()), "SQL tokenizer: "+st.err)
 					case sqlMutating[st.verb]:
-						ok := onTx && funcName(host) == fnSQLSet
+						ok := onTx && w.onlyReachableFrom(fn, w.rootsOf(fnSQLSet))
 						r.Check(ok, rule, key+" | mutating statement only in writer.Set on the transaction", w.pos(in.Pos()), fmt.Sprintf("mutating SQL statement (%s) executed in %s (on transaction: %v); only writer.Set may mutate, and only inside the transaction", st.verb, short(fn.String()), onTx))
 					case st.verb == "CREATE":
-						ok := st.ifNotExists && funcName(host) == fnSQLInit
+						ok := st.ifNotExists && w.onlyReachableFrom(fn, w.rootsOf(fnSQLInit))
 						r.Check(ok, rule, key+" | idempotent DDL only in Init", w.pos(in.Pos()), "CREATE statement outside Init or without IF NOT EXISTS")
 					default:
 						r.Undecided(rule, key, w.pos(in.Pos()), "unclassified SQL verb "+st.verb)
@@ -636,8 +665,8 @@ func sqlSites(w *World) []sqlSite {
 					if sc.Signature.Recv() != nil && len(args) > 0 {
 						args = args[1:]
 					}
-				} else if !call.Call.IsInvoke() {
-					// dynamic call of a bound method value (queryRow parameter): text is still the first constant string
+				} else {
+					// interface method (a local query interface satisfied by *sql.DB/*sql.Tx) or a function value
 					name = "dyn"
 				}
 				isE, _ := isSQLExec(name)
@@ -787,7 +816,7 @@ func ruleOneStatement(w *World, r *Run, rule string) {
 		switch {
 		case s.st.verb == "CREATE":
 			create = s
-		case (s.st.verb == "INSERT" || s.st.verb == "REPLACE") && host == fnSQLSet:
+		case (s.st.verb == "INSERT" || s.st.verb == "REPLACE") && (host == fnSQLSet || w.onlyReachableFrom(s.fn, w.rootsOf(fnSQLSet))):
 			upsert = s
 		case s.st.verb == "SELECT" && s.st.whereCol != "":
 			sel = s
@@ -927,7 +956,7 @@ func ruleNoLeakedTx(w *World, r *Run, rule string) {
 func ruleLogsFromKeys(w *World, r *Run, rule string) {
 	if sums, _, ok := explore(w, r, rule, fnGetLogs, 4, 1); ok {
 		fn := w.fn(fnGetLogs)
-		lsp := mk("field", "lsp", 0, nil, recvParam(fn))
+		lsp := fieldByType(recvParam(fn), "persistence.LogStatePersistence")
 		for _, s := range sums {
 			lc := calls(s, cLogs)
 			good := len(lc) == 1 && lc[0].Recv == lsp && len(s.Rets) == 2 && s.Rets[0] == res(lc[0], 0) && s.Rets[1] == res(lc[0], 1)
@@ -992,7 +1021,7 @@ func ruleReadVerbatim(w *World, r *Run, rule string) {
 		return
 	}
 	fn := w.fn(fnGetCheckpoint)
-	lsp := mk("field", "lsp", 0, nil, recvParam(fn))
+	lsp := fieldByType(recvParam(fn), "persistence.LogStatePersistence")
 	logID := paramN(fn, 0)
 	nOK := 0
 	for _, s := range sums {
@@ -1145,7 +1174,7 @@ func ruleNotFoundExact(w *World, r *Run, rule string) {
 // C07.e ADAPTER
 func ruleAdapter(w *World, r *Run, rule string) {
 	name := "(" + pOmni + ".witnessAdapter).GetLatestCheckpoint"
-	sums, _, ok := explore(w, r, rule, name, 0, 1)
+	sums, _, ok := exploreOpaque(w, r, rule, name, 4, 1, fnGetCheckpoint, fnUpdate)
 	if !ok {
 		return
 	}
@@ -1164,11 +1193,15 @@ func ruleAdapter(w *World, r *Run, rule string) {
 		switch {
 		case s.Rets[1] == notExist || (s.Rets[1].Kind == "global" && s.Rets[1].Name == "os.ErrNotExist"):
 			nMap++
-			r.Check(k && !isNil && kn && isNF && s.Rets[0].Kind == "nil", rule, key, w.pos(s.RetPos), "the adapter reports 'no checkpoint yet' on a path that did not establish a NotFound status: a storage failure would make the feeder start from scratch")
+			// an affirmative NotFound status implies a non-nil error (status.Code(nil) is OK)
+			r.Check(kn && isNF && s.Rets[0].Kind == "nil" && !(k && isNil), rule, key, w.pos(s.RetPos), "the adapter reports 'no checkpoint yet' on a path that did not establish a NotFound status: a storage failure would make the feeder start from scratch")
 		case k && !isNil:
 			r.Check(s.Rets[1] == e, rule, name+" | other errors passed through", w.pos(s.RetPos), "a failing read is not reported with its original error")
 		case k && isNil:
 			r.Check(s.Rets[0] == res(gc[0], 0) && (s.Rets[1] == e || s.Rets[1].Kind == "nil"), rule, name+" | success passes the bytes through", w.pos(s.RetPos), "adapter alters the checkpoint bytes")
+		case s.Rets[0] == res(gc[0], 0) && s.Rets[1] == e:
+			// both results handed on unchanged (after the NotFound test said no)
+			r.Pass(rule, name+" | results passed through", w.pos(s.RetPos), "")
 		default:
 			r.Fail(rule, name+" | error checked", w.pos(s.RetPos), "adapter returns without examining GetCheckpoint's error")
 		}
@@ -1178,7 +1211,7 @@ func ruleAdapter(w *World, r *Run, rule string) {
 	}
 	// adapter Update passes through unchanged
 	un := "(" + pOmni + ".witnessAdapter).Update"
-	if sums, _, ok := explore(w, r, rule, un, 0, 1); ok {
+	if sums, _, ok := exploreOpaque(w, r, rule, un, 4, 1, fnGetCheckpoint, fnUpdate); ok {
 		fn := w.fn(un)
 		for _, s := range sums {
 			uc := calls(s, fnUpdate)
@@ -1321,12 +1354,9 @@ func ruleCompareAndSet(w *World, r *Run, rule string) {
 		for _, ce := range u.s.Events {
 			if ce.Kind == "call" && snapshotEq[ce.Callee] && len(ce.Args) == 2 {
 				for _, a0 := range ce.Args {
-					anySub(a0, func(t *Term) bool {
-						if t.Kind == "deref" && t.Args[0].Kind == "param" {
-							expected = t.Args[0]
-						}
-						return false
-					})
+					if p := pointerParamIn(a0); p != nil {
+						expected = p
+					}
 				}
 			}
 		}
@@ -1367,12 +1397,7 @@ func ruleCompareAndSet(w *World, r *Run, rule string) {
 				if k, v, _ := boolFact(s, ce.Res); k && v {
 					for i := 0; i < 2; i++ {
 						if mentions(ce.Args[i], valT) && !mentions(ce.Args[1-i], valT) {
-							anySub(ce.Args[1-i], func(t *Term) bool {
-								if t.Kind == "deref" && t.Args[0].Kind == "param" {
-									exp = t.Args[0]
-								}
-								return false
-							})
+							exp = pointerParamIn(ce.Args[1-i])
 							eq = exp != nil
 						}
 					}
@@ -1395,6 +1420,28 @@ func ruleCompareAndSet(w *World, r *Run, rule string) {
 			r.Check(len(s.Rets) == 1 && s.Rets[0].Kind != "nil", rule, fnMemExpect+" | conflict reported as error", w.pos(s.RetPos), "a path that does not write reports success (lost accepted update)")
 		}
 	}
+}
+
+// pointerParamIn finds a pointer-typed parameter that t dereferences (deref(p) or a field read through p).
+func pointerParamIn(t *Term) *Term {
+	var out *Term
+	anySub(t, func(x *Term) bool {
+		if x.Kind == "param" && x.Typ != nil {
+			if pt, ok := x.Typ.Underlying().(*types.Pointer); ok {
+				// the snapshot pointer, not the store itself (the receiver owns a mutex)
+				if st, ok := pt.Elem().Underlying().(*types.Struct); ok {
+					for i := 0; i < st.NumFields(); i++ {
+						if strings.Contains(st.Field(i).Type().String(), "sync.") {
+							return false
+						}
+					}
+				}
+				out = x
+			}
+		}
+		return false
+	})
+	return out
 }
 
 func ruleSnapshotPairing(w *World, r *Run, rule string) {
@@ -1517,14 +1564,7 @@ func ruleGlobals(w *World, r *Run, rule string, pkgs []string) {
 				n++
 				key := g.Pkg.Pkg.Path() + "." + g.Name() + " | assigned only at package init or inside sync.Once.Do"
 				okInit := fn.Name() == "init" && fn.Synthetic != ""
-				inOnce := false
-				if fn.Parent() != nil {
-					for _, c := range onceDoClosures(fn.Parent()) {
-						if c == fn {
-							inOnce = true
-						}
-					}
-				}
+				inOnce := w.inOnce(fn)
 				r.Check(okInit || inOnce, rule, key, w.pos(st.Pos()), "package-level variable "+g.Name()+" is assigned in "+short(fn.String())+" (shared mutable state across requests/logs)")
 			}
 		}
